@@ -2,9 +2,9 @@ package main
 
 import (
 	"fmt"
-	"strings"
 	"net/url"
 	"reflect"
+	"strings"
 
 	"gitee.com/xuesongtao/protoc-go-valid/valid"
 	"verif/harness/internal/gal"
@@ -55,6 +55,9 @@ func c03Types() []c03Type {
 
 func runC03(c *Ctx) error {
 	w := gal.NewWriter("C03", c.Out, "Run.Run_Walk", 150)
+	// required / exist on arrays of structs, maps of structs keyed by other kinds, pointers to pointers: "a supplied
+	// non-empty value never violates it" and the walk descends into it
+	emitDirectedShapes(w)
 	r := c.Rng
 	types := c03Types()
 	rounds := 4
@@ -233,11 +236,11 @@ func runC03(c *Ctx) error {
 		query string
 		exps  func(m1, m2 string) []expE
 	}{
-		{"k=abc&p=1&k=", func(m1, m2 string) []expE { return []expE{{"C", "k", m2}, {"C", "k", m1}} }},   // abc violates eq=9, then the empty one is required
+		{"k=abc&p=1&k=", func(m1, m2 string) []expE { return []expE{{"C", "k", m2}, {"C", "k", m1}} }}, // abc violates eq=9, then the empty one is required
 		{"k=&p=1&k=abc", func(m1, m2 string) []expE { return []expE{{"C", "k", m1}, {"C", "k", m2}} }},
 		{"k=abc&k=abc", func(m1, m2 string) []expE { return []expE{{"C", "k", m2}, {"C", "k", m2}} }},
 		{"k=&k=", func(m1, m2 string) []expE { return []expE{{"C", "k", m1}, {"C", "k", m1}} }},
-		{"k=abcdefghi&p=2&k=", func(m1, m2 string) []expE { return []expE{{"C", "k", m1}} }},          // first satisfies both
+		{"k=abcdefghi&p=2&k=", func(m1, m2 string) []expE { return []expE{{"C", "k", m1}} }}, // first satisfies both
 	} {
 		m1, m2 := mark(), mark()
 		call := &walkCall{Entry: "url", Rules: map[string]string{"k": "required|" + m1 + ",eq=9|" + m2}, Src: "http://h.example/p?" + q.query}
